@@ -4,7 +4,7 @@ CONSTANTS
   Mallory = {"mx"}
   Log = {"l1"}
   MaxSeq = 3
-  PrunePositions <- AllPositions
+  PrunePositions <- NonZeroPositions
   MaxDeliver = 4
   MaxInFlight = 3
   ForgeBudget = 0
